@@ -449,6 +449,7 @@ int main() {
           if (r == 0) r = exec_s2(w, c);
           if (r == 0) r = exec_s3(w, c);
           if (r == 0) r = exec_s4(w, c);
+          if (r == 0) r = exec_s5(w, c);
         } catch (const std::exception& e) { status = "EXC " + excname(e); r = 1; }
         if (r != 1 || !c.pre_done) { std::cout << "bad-op\n"; continue; }
         long t = c.newh >= 0 ? c.newh : c.objs[0];
